@@ -922,7 +922,7 @@ func c18r5(c *core.Ctx) {
 			c.Undecided("listing-append@"+fname(f), f.Pos(), "append not found")
 		} else {
 			extra := 0
-			for _, iff := range controlDeps(app.Block()) {
+			for _, iff := range controlDepsAll(app.Block()) {
 				okCond := false
 				check := func(v ssa.Value) bool {
 					call, ok := core.StripConv(v).(*ssa.Call)
@@ -1290,14 +1290,24 @@ func c09r7(c *core.Ctx) {
 		})
 	}
 	// 207 iff some entry failed; 204 iff nothing to report
-	var flag *ssa.Phi
+	// the failure flag: the boolean loop-carried variable (whatever its name) whose value decides the 207 answer
+	var boolPhis []*ssa.Phi
 	core.Instrs(f, func(i ssa.Instruction) {
-		if ph, ok := i.(*ssa.Phi); ok && ph.Comment == "err" {
-			if b, ok := ph.Type().Underlying().(*types.Basic); ok && b.Kind() == types.Bool && flag == nil {
-				flag = ph
+		if ph, ok := i.(*ssa.Phi); ok {
+			if b, ok := ph.Type().Underlying().(*types.Basic); ok && b.Kind() == types.Bool {
+				boolPhis = append(boolPhis, ph)
 			}
 		}
 	})
+	flagFor := func(site ssa.Instruction) *ssa.Phi {
+		for _, ph := range boolPhis {
+			is := func(v ssa.Value) bool { return v == ssa.Value(ph) }
+			if core.Dominated(site, core.TrueFact(is)) || core.Dominated(site, core.FalseFact(is)) {
+				return ph
+			}
+		}
+		return nil
+	}
 	core.Instrs(f, func(i ssa.Instruction) {
 		if !core.IsInvoke(i, "net/http.ResponseWriter", "WriteHeader") {
 			return
@@ -1308,6 +1318,7 @@ func c09r7(c *core.Ctx) {
 		}
 		switch code {
 		case 207:
+			flag := flagFor(i)
 			if flag == nil {
 				c.Undecided("multi-status-flag@"+fname(f), posOf(i), "the flag that records a failed entry was not recognised")
 				return
